@@ -81,6 +81,14 @@ class OptimumMonitor:
         vmin = min(float(e["v"]) for e in done)
         if snap["v"] is not None and float(snap["v"]) > vmin:
             self._v(where, "smaller-trial-exists", {"reported": _f(snap["v"]), "min_global": vmin})
+        # "no evaluated trial has a smaller value": at the moments the statement lists (after an iteration, inside a callback,
+        # the returned Solution) no refinement is in flight, and everything the objective was evaluated at - by the search or
+        # by the refinement - counts.  (Nelder-Mead keeps its best vertex, so a finished refinement reports its minimum.)
+        vall = min(float(e["v"]) for e in allv)
+        if snap["v"] is not None and float(snap["v"]) > vall and not float(snap["v"]) > vmin:
+            self._v(where, "smaller-evaluated-point-exists", {"reported": _f(snap["v"]), "min_over_both_phases": vall, "min_global": vmin,
+                                                              "global_trials": len(done), "local_evaluations": len(allv) - len(done)})
+        self.refined_moments = getattr(self, "refined_moments", 0) + 1
 
     def refined(self):
         return any(e["ph"] == "l" for e in self.problem.log)
